@@ -23,6 +23,14 @@ AB = {"none": {}, "defocus": {"defocus": 120.0}, "C30": {"C30": 2e6}, "C12": {"C
       "C56": {"C56": 1.2e8, "phi56": 0.5}, "cs_defocus": {"Cs": -1.5e6, "defocus": -300.0}, "astig_coma": {"astigmatism": 60.0, "coma": 1500.0, "coma_angle": 2.0}}
 
 
+from ..routes import reroute
+
+
+def _route_index(c):
+    import zlib
+    return zlib.crc32(json.dumps(c, sort_keys=True, default=str).encode())
+
+
 def observe(c):
     import abtem
     gpts = tuple(c["gpts"])
@@ -45,6 +53,7 @@ def observe(c):
                 nyq = min(gpts[0] / extent[0], gpts[1] / extent[1]) / 2 * lam * 1e3
                 cutoff = {"small": 0.12 * nyq, "mid": 0.35 * nyq, "near_antialias": 0.63 * nyq, "beyond_antialias": 0.8 * nyq}[c["cutoff"]]
                 probe = abtem.Probe(energy=100e3, semiangle_cutoff=cutoff, soft=c["soft"], extent=extent, gpts=gpts, tilt=tilt, **ab)
+                probe, ev["route"] = reroute(probe, _route_index(c))          # the builder reaches build() through a copy / deepcopy / pickle
                 sx, sy = extent[0] / gpts[0], extent[1] / gpts[1]
                 scan = {"origin": abtem.CustomScan(np.array([[0.0, 0.0]])), "off_grid": abtem.CustomScan(np.array([[2.37 * sx, 5.61 * sy]])),
                         "several": abtem.CustomScan(np.array([[0.0, 0.0], [1.5 * sx, 0.0], [3.3, 4.4]])),
@@ -54,6 +63,7 @@ def observe(c):
                 builder = probe
             else:
                 builder = abtem.PlaneWave(energy=100e3, extent=extent, gpts=gpts, tilt=tilt, normalize=(c["kind"] == "plane_normalized"))
+                builder, ev["route"] = reroute(builder, _route_index(c))
                 w = builder.build(lazy=c["lazy"])
             for ed in c.get("edits", []):
                 # the same builder object, edited after it has been built once
